@@ -61,9 +61,13 @@ def handleC07 (c : Case) : Verdict :=
   | some s =>
     if s.getD 1 "" == "panic" then .specfalse "C07:save:panic" "saveUnpacked-panicked"
     else if s.getD 1 "" == "err" then
-      -- restic refused to store (only legitimate for a backend error); the model never fails here
-      -- unless the verification fails, which the laws exclude: report as disagreement
-      .differ "save" s!"implementation-save-failed:{s.getD 2 "?"}"
+      -- the in-memory backend never fails, so a refused save means restic's own self check found
+      -- that decoding the encoded payload does not give the payload back: the round trip fails
+      let cls := s.getD 2 "?"
+      let payload : Bytes := match c.find "payload" with | some r => (unhex (r.getD 1 "-")).getD [] | none => []
+      if cls == "verifyDecrypt" || cls == "verifyDecompress" || cls == "verifyMismatch" then
+        .specfalse s!"C07:roundtrip:save-self-check-failed:{cls}:v{v}:{typeLabel t}:{firstByteLabel payload}" s!"payload={hex payload}"
+      else .differ "save" s!"implementation-save-failed:{cls}"
     else handleStored c v t nev baseLabels true
   | none => handleStored c v t nev baseLabels false
 where
